@@ -7,15 +7,17 @@ PROP = {'drive': ['Header'],
                        'C03_wellformed',
                        'C03_parse_write',
                        'C03_tables_kept',
-                       'C03_perm'],
+                       'C03_perm',
+                       'C03_read_write'],
  'areas': [('header', 500, 8000), ('fontfile', 12, 120)],
  'harness_files': ['area_header.go', 'area_fontfile.go'],
  'rule': 'distinct case lines (scaler, tag->bytes map / file bytes); non-trivial = at least two tables',
  'partial': ["clause 'an independent sfnt implementation reading a complete font file reports the same glyph "
              "count, units per em, mapping, widths, names, outlines' is a corollary of C09/C11/C12/C14 spec "
              'decoders and is only as complete as those; the x/image oracle (stream header.ximage) checks glyph count, units per em, character mapping and advance widths on complete files; glyph names and outlines are not yet compared',
-             'C03_read_write (model of header.Read on the written file) is checked by correspondence only '
-             '(stream header.read), not yet a theorem'],
+             'C03_read_write (the model of the library reader header.Read accepts every written file and '
+             'returns exactly the written bodies) is a theorem; that the model of header.Read is header.Read is the '
+             'verdict stream header.read (well-formed, truncated and mutated files)'],
  'modelled_not_verified': ['encoding/binary.Write and sort.Slice re-implemented in Lean (be16/be32, '
                            'mergeSort) and compared by byte-exact correspondence',
                            'uint32 wrap of offsets is outside Dom (file size < 2^32)'],
